@@ -542,6 +542,24 @@ theorem c11_eof_proper_prefix (env : Env) (bs : Bytes) (c : Code) (idx : Nat)
     · have := congrArg List.length h0; simp at this; omega
     · simp at h0; omega
 
+open SJ.Proofs.Earliest in
+/-- … and at machine level: when the input does not end inside a `\u` group (and `SideOK`), the input itself has a
+    non-empty accepted continuation — the statement in its plain form -/
+theorem c11_eof_viable_plain (env : Env) (bs : Bytes) (c : Code) (idx : Nat)
+    (h : parseTop env bs = .err c idx) (hc : classify c = .eof)
+    (hside : ∀ s, feed env init 0 bs = .ok (s, bs.length) → SideOK env s)
+    (hnu : ∀ x d, bs = x ++ [0x5c, 0x75] ++ d → d = [] ∨ 3 < d.length) :
+    ∃ ys v, ys ≠ [] ∧ parseTop env (bs ++ ys) = .ok v := by
+  obtain ⟨k, ys, v, hk, hle, hne, hv⟩ := c11_eof_viable env bs c idx h hc hside
+  rcases hk with rfl | ⟨h1, h2, _, x, hx⟩
+  · exact ⟨ys, v, hne, by simpa using hv⟩
+  · exfalso
+    have hsplit : bs = x ++ [0x5c, 0x75] ++ bs.drop (bs.length - k) := by
+      rw [← hx, List.take_append_drop]
+    rcases hnu x _ hsplit with h0 | h0
+    · have := congrArg List.length h0; simp at this; omega
+    · simp at h0; omega
+
 /-! non-vacuity: `[1,` is `EofWhileParsingValue` at 3 and continues with `null]`; `"\u12` (cut inside the group) is
     `EofWhileParsingString` at 5, and `"\u` continues with `0000"` -/
 example : parseTop envS [0x5b, 0x31, 0x2c] = .err .EofWhileParsingValue 3 := rfl
